@@ -286,15 +286,27 @@ func ruleDirNotSymlink(c *eng.Ctx) {
 	if fn == nil {
 		return
 	}
-	lstats := c.P.CallsTo(fn, pkgFS+".Lstat")
 	mk := c.P.CallsTo(fn, pkgFS+".MkdirAll")
-	rm := c.P.CallsTo(fn, pkgFS+".Remove")
+	// the examination (Lstat, remove what is not a directory) happens in ensureDir itself or in
+	// a private helper it calls before MkdirAll
+	ex := fn
+	var exCall ssa.CallInstruction
+	lstats := c.P.CallsTo(fn, pkgFS+".Lstat")
+	if len(lstats) == 0 {
+		for _, call := range callsReaching(c, fn, 1, func(x ssa.CallInstruction) bool { return c.P.CalleeName(x) == pkgFS+".Lstat" }) {
+			if h := call.Common().StaticCallee(); h != nil && len(h.Blocks) > 0 && eng.PkgOf(h) == pkgRestorer {
+				ex, exCall = h, call
+				lstats = c.P.CallsTo(h, pkgFS+".Lstat")
+			}
+		}
+	}
+	rm := c.P.CallsTo(ex, pkgFS+".Remove")
 	if len(lstats) != 1 || len(mk) == 0 {
 		c.Unk(rule, "ensureDir:anchors", fn.Pos(), "expected one fs.Lstat and a fs.MkdirAll, found %d and %d", len(lstats), len(mk))
 		return
 	}
 	var isDir, notExist []ssa.CallInstruction
-	for _, call := range eng.Calls(fn) {
+	for _, call := range eng.Calls(ex) {
 		switch {
 		case eng.MethodName(call) == "IsDir":
 			isDir = append(isDir, call)
@@ -303,12 +315,35 @@ func ruleDirNotSymlink(c *eng.Ctx) {
 		}
 	}
 	dryF := c.P.Field(pkgRestorer+".Options", "DryRun")
-	for _, m := range mk {
-		cut := eng.Union(eng.ResultCut(true, 0, isDir...), eng.ResultCut(true, 0, notExist...), eng.SuccessCut(rm...))
-		c.MustPass(rule, "ensureDir:absent-or-real-directory-or-removed→MkdirAll", eng.After(lstats[0].(ssa.Instruction)), m.(ssa.Instruction), cut,
-			"lstat: does not exist, or IsDir() is true, or the non-directory (file, symlink, …) was removed successfully")
-		c.MustPass(rule, "ensureDir:lstat→MkdirAll", eng.Entry(fn), m.(ssa.Instruction), eng.Union(eng.CallCut(lstats...)), "the path is examined with Lstat (no symlink following) first")
-		c.Check(eng.IsParam(fn, "target")(eng.Arg(m, 0)) && eng.IsParam(fn, "target")(eng.Arg(lstats[0], 0)), rule, "ensureDir:same-path", m.Pos(), "the path examined is the path created")
+	cut := eng.Union(eng.ResultCut(true, 0, isDir...), eng.ResultCut(true, 0, notExist...), eng.SuccessCut(rm...))
+	const what = "lstat: does not exist, or IsDir() is true, or the non-directory (file, symlink, …) was removed successfully"
+	if exCall != nil {
+		c.Touch(ex)
+		// the helper reports success only in those three cases …
+		for _, r := range eng.Returns(ex) {
+			if c.P.MayBeNil(eng.RetVal(r, len(r.Results)-1)) {
+				c.MustPass(rule, "ensureDir:absent-or-real-directory-or-removed→MkdirAll", eng.After(lstats[0].(ssa.Instruction)), r, cut, what)
+				c.MustPass(rule, "ensureDir:lstat→MkdirAll", eng.Entry(ex), r, eng.CallCut(lstats...), "the path is examined with Lstat (no symlink following) first")
+			}
+		}
+		// … and the directory is created only after it did
+		for _, m := range mk {
+			c.MustPass(rule, "ensureDir:examined→MkdirAll", eng.Entry(fn), m.(ssa.Instruction), eng.SuccessCut(exCall), c.P.FnName(ex)+" returned nil")
+			samePath := eng.IsParam(fn, "target")(eng.Arg(m, 0))
+			okBind := false
+			for i, hp := range ex.Params {
+				if eng.SameAs(hp)(eng.Arg(lstats[0], 0)) && i < len(exCall.Common().Args) && eng.IsParam(fn, "target")(exCall.Common().Args[i]) {
+					okBind = true
+				}
+			}
+			c.Check(samePath && okBind, rule, "ensureDir:same-path", m.Pos(), "the path examined is the path created")
+		}
+	} else {
+		for _, m := range mk {
+			c.MustPass(rule, "ensureDir:absent-or-real-directory-or-removed→MkdirAll", eng.After(lstats[0].(ssa.Instruction)), m.(ssa.Instruction), cut, what)
+			c.MustPass(rule, "ensureDir:lstat→MkdirAll", eng.Entry(fn), m.(ssa.Instruction), eng.Union(eng.CallCut(lstats...)), "the path is examined with Lstat (no symlink following) first")
+			c.Check(eng.IsParam(fn, "target")(eng.Arg(m, 0)) && eng.IsParam(fn, "target")(eng.Arg(lstats[0], 0)), rule, "ensureDir:same-path", m.Pos(), "the path examined is the path created")
+		}
 	}
 	_ = dryF
 	// every directory the restorer creates below the target goes through ensureDir
